@@ -41,6 +41,7 @@
 #include <unordered_map>
 #include <filesystem>
 #include <fstream>
+#include <limits>
 #include <map>
 #include <memory>
 #include <sstream>
@@ -198,6 +199,9 @@ void make_scratch()
   { std::ofstream f(scratch / "file4096"); f << std::string(4096, 'x'); }
   std::filesystem::create_directory(scratch / "dir");
   std::error_code ec;
+  { std::ofstream f(scratch / "sparse5g"); }
+  std::filesystem::resize_file(scratch / "sparse5g", 5368709120ULL, ec);                       // a hole: larger than 2^32, no blocks
+  ec.clear();
   std::filesystem::create_symlink(scratch / "nowhere", scratch / "dangling", ec);
   std::filesystem::create_symlink(scratch / "file5", scratch / "symfile", ec);
   // paths on which stat() itself fails with something other than "not found"
@@ -541,6 +545,22 @@ std::string handle1(std::vector<std::string> const &t)
     if (t[1] == "ulong") return run(fcppt::tag<unsigned long>{});
     if (t[1] == "long") return run(fcppt::tag<long>{});
     if (t[1] == "string") return run(fcppt::tag<std::string>{});
+    if (t[1] == "float" || t[1] == "double")
+    {
+      auto run_float = [&s]<typename T>(fcppt::tag<T>) {
+        auto show = [](fcppt::optional::object<T> const &o) {
+          if (!o.has_value())
+            return std::string{"none"};
+          T const v = o.get_unsafe();
+          return std::string{"some "} + (v != v ? "nan" : v == std::numeric_limits<T>::infinity() || v == -std::numeric_limits<T>::infinity() ? "inf" : v == T{0} ? "zero" : "finite");
+        };
+        std::string const r1 = show(fcppt::extract_from_string<T>(s));
+        hostile_locale_guard const guard{};
+        std::string const r2 = show(fcppt::extract_from_string_locale<T>(s, std::locale::classic()));
+        return r1 == r2 ? r1 : "locales-disagree " + r1 + " / " + r2;
+      };
+      return t[1] == "float" ? run_float(fcppt::tag<float>{}) : run_float(fcppt::tag<double>{});
+    }
     if (t[1] == "char" || t[1] == "uchar" || t[1] == "schar")
     {
       auto run_char = [&s]<typename T>(fcppt::tag<T>) {
